@@ -55,6 +55,21 @@ def run(tier, wd):
                     a["cli"] = [{"id": "true", "ok": True}] * k
                     cases.append(c)
                     abstracts.append(a)
+    # many values at one level, spread over two containers (the custom one and a plain flag -x): the order of the custom one's tokens
+    for m, d in itertools.product([False, True], repeat=2):
+        caps = {"bool": False, "multi": m, "isdefault": d, "failon": list(V.INVALID["custom"])}
+        for nvals, nflags in ((9, 5), (14, 3), (20, 8)):
+            n += 1
+            c, a = V.concrete("custom", "opt", False, None, (), ("valid",) * nvals, rnd, custom=caps, tag="_%d" % (n % 7))
+            argv, k = [], 0
+            for i, t in enumerate(c["cli"]):
+                argv += rnd.choice([["-o", t], ["--opt=" + t], ["-o" + t]])
+                if k < nflags and i % 2 == 0:
+                    argv.append("-x")
+                    k += 1
+            c["argv"], c["spec"], c["extraflag"] = argv, "[-x | -o]...", True
+            cases.append(c)
+            abstracts.append(a)
     rows = vc.run_cases(rep, wd, binpath, cases, abstracts, "c19")
     nontriv = set()
     for case, a, clean, dev, r in rows:
